@@ -175,10 +175,12 @@ def _mk_hull(d, tier):
         box = seg.box()
         lo, hi = xy(box.lowpt), xy(box.toppt)
         v = seg(t)
-        if d > 3:
+        if d > 2:
             # lemma steps (assert-then-assume), each an obligation of its own: Bernstein weights are
             # non-negative on [0,1], sum to one, eval is their convex combination of the control points,
             # every control point is inside the box, each product w_i*(c_i-lo) is non-negative.
+            # (linear fact first: nonlinear hypotheses slow the solver down on it)
+            h.step("box-bounds-control-points", AND(*[AND(lo[0] <= c[0], c[0] <= hi[0], lo[1] <= c[1], c[1] <= hi[1]) for c in ctrl]))
             ws = [comb(d, i) * t ** i * (1 - t) ** (d - i) for i in range(d + 1)]
             for i, w in enumerate(ws):
                 h.step("weights-nonneg", w >= 0)
@@ -191,7 +193,6 @@ def _mk_hull(d, tier):
                 sy = sy + w * c[1]
             h.step("partition-of-unity", EQ(tot, 1))
             h.step("eval-is-convex-combination", AND(EQ(v[0], sx), EQ(v[1], sy)))
-            h.step("box-bounds-control-points", AND(*[AND(lo[0] <= c[0], c[0] <= hi[0], lo[1] <= c[1], c[1] <= hi[1]) for c in ctrl]))
             for w, c in zip(ws, ctrl):
                 h.step("product-nonneg", AND(w * (c[0] - lo[0]) >= 0, w * (hi[0] - c[0]) >= 0,
                                              w * (c[1] - lo[1]) >= 0, w * (hi[1] - c[1]) >= 0))
